@@ -452,6 +452,30 @@ func StrLen(a *Term) *Term {
 	return newTerm("strlen64", SortBV(64), a)
 }
 
+// StrContains: subject contains sub
+func StrContains(subject, sub *Term) *Term {
+	if subject.IsConst() && sub.IsConst() {
+		return BoolConst(strings.Contains(subject.S, sub.S))
+	}
+	if sub.IsConst() && sub.S == "" {
+		return termTrue
+	}
+	return newTerm("str.contains", SortBool, subject, sub)
+}
+
+// StrIsLowerLiteral: s consists of lowercase ASCII letters only (so that, as a regular expression, it is a literal)
+func StrIsLowerLiteral(s *Term) *Term {
+	if s.IsConst() {
+		for _, r := range s.S {
+			if r < 'a' || r > 'z' {
+				return termFalse
+			}
+		}
+		return termTrue
+	}
+	return newTerm("str.lowerlit", SortBool, s)
+}
+
 // UF application: uninterpreted function with given name and result sort
 func UFApp(name string, sort Sort, args ...*Term) *Term {
 	t := newTerm("uf", sort, args...)
@@ -538,6 +562,8 @@ func (p *printer) ref(t *Term) string {
 		body = fmt.Sprintf("((_ extract %d %d) %s)", t.P1, t.P2, args[0])
 	case "zero_extend", "sign_extend":
 		body = fmt.Sprintf("((_ %s %d) %s)", t.Op, t.P1, args[0])
+	case "str.lowerlit":
+		body = fmt.Sprintf("(str.in_re %s (re.* (re.range \"a\" \"z\")))", args[0])
 	case "strlen64":
 		body = fmt.Sprintf("((_ int2bv 64) (str.len %s))", args[0])
 	case "uf":
